@@ -126,6 +126,11 @@ class TaskScheduler(object):
                     # item doesn't get flushed), but that's ok because self._batches is a set.
                     self._schedule_batch(task.batch)
                     self._tasks.pop()
+                elif isinstance(task, batching.BatchBase) and task.items:
+                    # A task waits for a whole batch: like an item of it, the batch is
+                    # flushed when nothing else can run, not in the middle of this walk.
+                    self._schedule_batch(task)
+                    self._tasks.pop()
                 else:
                     try:
                         task._compute()
